@@ -280,8 +280,9 @@ class DepSet(boolean.AndRestriction, caching=False):
     def __str__(self):
         return stringify_boolean(self)
 
-    # parent __hash__() isn't inherited when __eq__() is defined in the child class
-    __hash__ = boolean.AndRestriction.__hash__
+    # __eq__ compares the members as a set, so the hash must not depend on their order
+    def __hash__(self):
+        return hash(frozenset(self.restrictions))
 
     def __eq__(self, other):
         if isinstance(other, DepSet):
